@@ -9,17 +9,19 @@ from props import c12_util as U
 PROP = "C12"
 LEVEL = "proof"
 GEN_UNITS = ["GenHandles", "GenFgSetup", "GenKernels", "GenKernels3"]
-COQ_TARGETS = ["Props/C12.vo", "Model/C12Harness.vo", "Proofs/C12Mttkrps.vo", "Proofs/C12Setup.vo", "Proofs/C12GenTie.vo", "Proofs/C12Reshape.vo", "Proofs/C12KrTie.vo", "Proofs/C12GenMttv.vo", "Proofs/C12GenMttvPy.vo", "Proofs/C12EvalBytes.vo", "Model/Harness.vo"]
+COQ_TARGETS = ["Props/C12.vo", "Model/C12Harness.vo", "Proofs/C12Mttkrps.vo", "Proofs/C12Setup.vo", "Proofs/C12GenTie.vo", "Proofs/C12Reshape.vo", "Proofs/C12KrTie.vo", "Proofs/C12GenMttv.vo", "Proofs/C12GenMttvPy.vo", "Proofs/C12EvalBytes.vo", "Proofs/C12HandleNum.vo", "Proofs/C12EstLine.vo", "Model/Harness.vo"]
 THEOREM_FILES = ["Props/C12.v"]
 COQ_IMPORTS = ("From Coq Require Import List ZArith Bool QArith Qcanon.\n"
-               "From PV Require Import Base.Index Np.Array Model.Sparse Model.Repr Model.Harness Model.C12Gcp Model.C12Harness Proofs.C12Mttkrps Proofs.C12Reshape Proofs.C12GenMttv Proofs.C12GenMttvPy Proofs.C12EvalBytes.\nFrom PV Require Np.NpZ.\n"
+               "From PV Require Import Base.Index Np.Array Model.Sparse Model.Repr Model.Harness Model.C12Gcp Model.C12Harness Proofs.C12Mttkrps Proofs.C12Reshape Proofs.C12GenMttv Proofs.C12GenMttvPy Proofs.C12EvalBytes Proofs.C12HandleNum Proofs.C12EstLine.\nFrom PV Require Np.NpZ.\n"
                "Set Warnings \"-ambiguous-paths\".\nFrom PV Require Import Proofs.C12Setup.\n")
 RULE = ("N-way shapes (N = 2..4, sizes 1..4, singleton modes, <= 48 cells) plus skewed 4-way shapes on both sides of min_split "
         "((6,2,2,3), (2,2,3,8), (4,1,2,2), (2,2,2,5)) and 5-way shapes, ranks 1..3, integer factors / data / masks, "
         "component-weight vectors all-ones / mixed (some exactly 1, some not) / all-non-unit under lambda_check True and False, "
         "4 polynomial (loss, derivative) pairs so float64 results are exact; samples with repeats and correction ranges; "
         "memory layouts (data array C / F / strided view handed to the tensor constructor, factor matrices C / F / strided view, weight "
-        "array C / F / view, handles returning C-ordered arrays); degenerate operands (weight arrays all zero / zero but one cell, sparse "
+        "array C / F / view, handles returning C-ordered arrays); weight-array value classes (None, 0/1 float, np.bool_ mask, small integers "
+        "incl. 2 and -1, fractional k / 2^e with e = 1..3 — handed to pyttb as fractions, result * 2^e compared with the model on the "
+        "numerators, justified by C12_weights_linear_F / _G —, all zero, zero but one cell); degenerate operands (weight arrays all zero / zero but one cell, sparse "
         "data with no stored entry / one entry, exact fits, 1x1 / 3x1 / singleton-mode 5-way shapes, sample sets with 0 / 1 samples / one "
         "subscript repeated, correction range None / all / empty); every returned matrix must be a 2-D array of the size of its factor; "
         "the ten real losses at a grid of rational points through an evaluator of the generated Gallina text; "
@@ -94,7 +96,19 @@ def _mask(rng, mask, n):
         w = [0] * n
         w[rng.randrange(n)] = rng.choice([1, 2, -1])
         return w
-    return [rng.randint(0, 1) if mask == "01" else rng.randint(-1, 2) for _ in range(n)]
+    if mask == "frac":          # numerators of a fractional weight array k / 2^e (denominator in args["wden"]): 1/2, 3/4, 5/2, -1/4 ...
+        return [rng.randint(-3, 9) for _ in range(n)]
+    return [rng.randint(0, 1) if mask in ("01", "bool") else rng.randint(-1, 2) for _ in range(n)]
+
+
+def _wkind(rng, mask):
+    """how the weight array reaches pyttb: float64 (default), np.bool_ mask, or numerators divided by 2^e (fractional / inverse-variance
+    weights; exact in float64, result * 2^e compared with the model on the numerators: C12_weights_linear_F / _G)"""
+    if mask == "bool":
+        return {"wbool": True}
+    if mask == "frac":
+        return {"wden": rng.choice([2, 4, 8])}
+    return {}
 
 
 def _lay(rng):
@@ -123,13 +137,13 @@ def gen_cases(rng, tier):
             fac = _rand_factors(rng, shp, R)
             lam = [1] * R if rng.random() < 0.6 else [rng.randint(-2, 3) for _ in range(R)]
             data = tgen.rand_dense(rng, shp, rng.choice([0.3, 0.7, 1.0]), -3, 4)
-            mask = rng.choice([None, "01", "int", "zero", "one0"])
+            mask = rng.choice([None, "01", "int", "zero", "one0", "frac", "frac", "bool"])
             w = _mask(rng, mask, n)
             fid = rng.randrange(NFID)
             nt = n > 1 and any(data) and any(any(any(r) for r in A) for A in fac)
             sparse_data = rng.random() < 0.3
             ev = {"shape": list(shp), "R": R, "factors": fac, "lam": lam, "data": data,
-                  "w": w, "fid": fid, "sparse": sparse_data, "lay": _lay(rng)}
+                  "w": w, "fid": fid, "sparse": sparse_data, "lay": _lay(rng), **_wkind(rng, mask)}
             cases.append(Case("evaluate", ev, nt))
             if any(x != 1 for x in lam):
                 # models with component weights: objective + "all modes at once = the per-mode MTTKRPs of the derivative array"
@@ -164,12 +178,13 @@ def gen_cases(rng, tier):
                 data = [sum(math.prod(A[i[l]][r] for l, A in enumerate(fac)) for r in range(R)) for i in tgen.all_subs(shp)]
             else:
                 data = tgen.rand_dense(rng, shp, 1.0, -3, 4)
-            for mask in (("zero", "one0", None, "01") if big else ("zero", rng.choice(["one0", None, "01"]))):
+            for mask in (("zero", "one0", None, "01", "frac", "bool") if big else ("zero", rng.choice(["one0", None, "01", "frac", "bool"]))):
                 lay = {"data": rng.choice(["F", "C", "view"]), "fac": rng.choice(["C", "F", "view"]),
                        "w": rng.choice(["F", "C", "view"]), "h": rng.choice(["F", "C"])}
                 cases.append(Case("evaluate", {"shape": list(shp), "R": R, "factors": fac, "lam": [1] * R, "data": data,
                                                "w": _mask(rng, mask, n), "fid": rng.randrange(NFID),
-                                               "sparse": kind in ("empty", "one") or rng.random() < 0.3, "lay": lay}, n > 1))
+                                               "sparse": kind in ("empty", "one") or rng.random() < 0.3, "lay": lay,
+                                               **_wkind(rng, mask)}, n > 1))
             lay = {"data": rng.choice(["F", "C", "view"]), "fac": rng.choice(["C", "F", "view"]), "w": "F", "h": "F"}
             cases.append(Case("mttkrps", {"shape": list(shp), "R": R, "factors": fac, "data": data, "lay": lay}, n > 1 and any(data)))
             cases.append(Case("estimate_full", {"shape": list(shp), "R": R, "factors": fac, "data": data,
@@ -331,10 +346,20 @@ def run_impl(c):
                         return ttb.sptensor(shape=tuple(shp))
                     return tgen.mk_sptensor(ttb, np, shp, subs, vals)
                 return ttb.tensor(_nd(np, shp, a["data"], lay["data"]))
-            w = lambda: None if a["w"] is None else _nd(np, shp, a["w"], lay["w"])
+            wden = a.get("wden", 1)
+
+            def w():
+                if a["w"] is None:
+                    return None
+                arr = _nd(np, shp, a["w"], lay["w"])
+                if a.get("wbool"):
+                    return arr.astype(bool)          # keeps the layout class of arr (C / F; a view becomes a fresh array)
+                return arr / wden if wden != 1 else arr
             F, G = fg.evaluate(model(), data(), w(), f, g)
             F1 = fg.evaluate(model(), data(), w(), f, None)
             G1 = fg.evaluate(model(), data(), w(), None, g)
+            if wden != 1:      # weights k / 2^e: results times 2^e (exact in float64) are those for the numerators k (C12_weights_linear_F / _G)
+                F, F1, G, G1 = F * wden, F1 * wden, [x * wden for x in G], [x * wden for x in G1]
             oG, ok1 = _obsG(np, G, shp, R)
             oG1, ok2 = _obsG(np, G1, shp, R)
             return {"F": tgen.exact(F), "G": oG, "F1": tgen.exact(F1), "G1": oG1, "dims_ok": ok1 and ok2}
@@ -383,7 +408,10 @@ def coq_check(c, o):
     if c.op == "setup":
         return U.check_setup(a, o)
     if c.op == "handle":
-        return "true" if U.compare_handles(a["name"], a["pts"], o["vals"]) is None else "false"
+        if U.compare_handles(a["name"], a["pts"], o["vals"]) is not None:      # Python evaluator of the generated text (kept as a second opinion)
+            return "false"
+        # decided in Coq: verified interval evaluation of the GENERATED handles (Proofs/C12HandleNum.v, hnum_check_sound)
+        return U.coq_handles(a["name"], a["pts"], o["vals"])
     shp = a["shape"]
     As = _gmats(a["factors"])
     if c.op == "estimate_lam":
@@ -424,16 +452,24 @@ def coq_check(c, o):
     if c.op == "estimate":
         crng = gnlist(a["crng"] or [])
         args = f"{As} {gnat(a['R'])} {gnmat(a['subs'])} {gzlist(a['xs'])} {gzlist(a['ws'])} {crng}"
+        # ... and the line-by-line transliteration of estimate_helper / estimate on whole arrays (Proofs/C12EstLine.v; crng None / array)
+        ocr = "None" if a["crng"] is None else f"(Some {gnlist(a['crng'])})"
+        line = (f"Z.eqb (zest_F_line {fid} {As} {gnmat(a['subs'])} {gzlist(a['xs'])} {gzlist(a['ws'])} {ocr}) {gz(o['F'])} && "
+                f"mats_eqb (zest_G_line {fid} {As} {gnat(a['R'])} {gnlist(shp)} {gnmat(a['subs'])} {gzlist(a['xs'])} {gzlist(a['ws'])} {ocr}) "
+                f"{_gmats(o['G'])}")
         return (f"Z.eqb (zest_F {fid} {args}) {gz(o['F'])} && mats_eqb (zest_G {fid} {args} {gnlist(shp)}) {_gmats(o['G'])} && "
-                f"Z.eqb {gz(o['F1'])} {gz(o['F'])} && mats_eqb {_gmats(o['G1'])} {_gmats(o['G'])}")
+                f"Z.eqb {gz(o['F1'])} {gz(o['F'])} && mats_eqb {_gmats(o['G1'])} {_gmats(o['G'])} && {line}")
     if c.op == "estimate_full":
         n = math.prod(shp)
         K = tgen.gktensor([1] * a["R"], a["factors"])
         X = tgen.gdense(shp, a["data"])
         args = f"{As} {gnat(a['R'])} (allsubs {gnlist(shp)}) {gzlist(a['data'])} {gzlist([1] * n)} (@nil nat)"
+        line = (f"Z.eqb (zest_F_line {fid} {As} (allsubs {gnlist(shp)}) {gzlist(a['data'])} {gzlist([1] * n)} None) {gz(o['F'])} && "
+                f"mats_eqb (zest_G_line {fid} {As} {gnat(a['R'])} {gnlist(shp)} (allsubs {gnlist(shp)}) {gzlist(a['data'])} {gzlist([1] * n)} None) "
+                f"{_gmats(o['G'])}")
         return (f"Z.eqb (zest_F {fid} {args}) {gz(o['F'])} && mats_eqb (zest_G {fid} {args} {gnlist(shp)}) {_gmats(o['G'])} && "
                 f"Z.eqb (zeval_F {fid} {K} {X} None) {gz(o['F2'])} && mats_eqb (zeval_G {fid} {K} {X} None) {_gmats(o['G2'])} && "
-                f"Z.eqb {gz(o['F'])} {gz(o['F2'])} && mats_eqb {_gmats(o['G'])} {_gmats(o['G2'])}")
+                f"Z.eqb {gz(o['F'])} {gz(o['F2'])} && mats_eqb {_gmats(o['G'])} {_gmats(o['G2'])} && {line}")
     raise ValueError(c.op)
 
 
